@@ -1,6 +1,7 @@
 SPECIFICATION TraceSpec
 CONSTANTS MaxRecs = 99 MaxCalls = 9999 MaxRuns = 9999 CommitBeforeReturn = TRUE TolerantVersionRead = TRUE
           AtomicUpgrade = TRUE Legacy = FALSE MaxBatches = 9999 GateResetOnError = TRUE ReloadWait = 0 MaxDepth = 9999 EnterKeepsPending = TRUE ParentFirst = TRUE Strict = FALSE
+CONSTANTS MaxVers = 9999 TokenConflict = "ignore" MaxFaults = 9999 CommitErrorRaises = TRUE
 INVARIANT TraceAccepted
 INVARIANT AckedDurable
 INVARIANT NoPartialRecord
@@ -9,6 +10,8 @@ INVARIANT PseudonymVerifies
 INVARIANT ObsMatchesDurable
 INVARIANT ObsAckedPresent
 INVARIANT ObsNoPartial
+INVARIANT ObsUnchanged
+INVARIANT AckedUnchanged
 INVARIANT RebuiltHasAcked
 INVARIANT RebuiltVerifies
 INVARIANT ObsRebuiltMatches
